@@ -25,6 +25,7 @@ rounds = [
     (2, 'seeded2', 'EVAL-round2-before-improvements.txt', 'EVAL-round2-on-head.txt'),
     (3, 'seeded3', 'EVAL-round3-first-contact.txt', 'EVAL-round3-on-head.txt'),
     (4, 'seeded4', 'EVAL-round4-first-contact.txt', 'EVAL-round4-on-head.txt'),
+    (5, 'seeded5', 'EVAL-round5-first-contact.txt', 'EVAL-round5-on-head.txt'),
 ]
 rows, summary = [], []
 for rnd, d, first, after in rounds:
